@@ -254,9 +254,21 @@ fn inspect(o: &mut Obs, r: &[u8], q: &[u8]) {
 /// listener) d6 ([::1]:5301); proto u|t.  All queries are sent at once, each from its own socket.
 pub fn run(toks: &[&str]) -> String {
     start();
+    let first = batch(toks, kv(toks, "q"));
+    // `gap=<ms> then=<specs>`: a second batch after a quiet period (idle timers of the upstream connection)
+    match (kv_opt(toks, "gap"), kv_opt(toks, "then")) {
+        (Some(g), Some(t)) => {
+            std::thread::sleep(Duration::from_millis(g.parse().expect("harness: gap")));
+            format!("{},{}", first, batch(toks, t))
+        }
+        _ => first,
+    }
+}
+
+fn batch(toks: &[&str], specs: &str) -> String {
     static CTR: std::sync::atomic::AtomicUsize = std::sync::atomic::AtomicUsize::new(0);
     let wait = Duration::from_millis(num(toks, "wait"));
-    let specs: Vec<&str> = kv(toks, "q").split(',').collect();
+    let specs: Vec<&str> = specs.split(',').collect();
     let mut handles = vec![];
     for (i, sp) in specs.iter().enumerate() {
         let f: Vec<String> = sp.split(':').map(|x| x.to_string()).collect();
